@@ -60,5 +60,8 @@ pub fn catch<T>(f: impl FnOnce() -> T + std::panic::UnwindSafe) -> Result<T, Str
 }
 
 pub fn silence_panics() {
+    if std::env::var("OQ3H_SHOW_PANICS").is_ok() {
+        return;
+    }
     std::panic::set_hook(Box::new(|_| {}));
 }
